@@ -444,7 +444,7 @@ func GenDelivery(r *Rng) sim.Delivery {
 	return d
 }
 
-var readerProfiles = []string{sim.ProfR, sim.ProfRB, sim.ProfRS, sim.ProfRSB, sim.ProfRSA, sim.ProfRSAB}
+var readerProfiles = []string{sim.ProfR, sim.ProfRB, sim.ProfRS, sim.ProfRSB, sim.ProfRSA, sim.ProfRSAB, sim.ProfPipe}
 
 // ReadOpts are the reader-side options of a medium case.
 type ReadOpts struct {
@@ -472,7 +472,6 @@ type MediumSpec struct {
 }
 
 var _ = mh.SHA2_256
-
 
 // LongBlocks replaces the blocks of spec by 70-140 small ones: an archive longer than the 4 KiB
 // buffers readers use, with more sections than any small constant.
